@@ -67,11 +67,16 @@ PROPS = {
     "C01": {
         "jobs": lambda tier: [
             J("scaled", "c01"),
+            J("scaled", "c01-header", imports="Base Stream Inst Run RunC01"),
+            J("prod", "c01-header", imports="Base Stream Inst Run RunC01"),
         ],
+        "run_modules": ["RunC01"],
         "rule": "scaled constants: generated writing plans (1-4 files, 0-7 pieces of boundary sizes around CIPHERBUF/CHUNK/BLOCK, "
                 "random interleaving, names incl. empty/unicode/max-length, 4 layer combinations, levels {0,1,5,9,11}, 1-3 recipients, "
                 "reader holding any one key), plus EVERY interleaving of up to 5 (quick) / 6 (thorough) pieces of two files with piece sizes {0, 3} "
-                "(layer-less; files started up front, and for shorter sequences also started lazily; 1704 / 6824 plans); non-trivial = at least one content byte; distinct = distinct (plan, read history)",
+                "(layer-less; files started up front, and for shorter sequences also started lazily; 1704 / 6824 plans); non-trivial = at least one content byte; distinct = distinct (plan, read history); c01-header (both flavours): 72 (216) real archives x 4 layer "
+                "combinations x 1-3 recipients: header bytes vs the model's dump_header (oracle mode for the ephemeral scalar), and read_header + load_config "
+                "with four candidate key lists vs the library",
         "exhaustive": {"quick": False, "thorough": False},
         "explanation": "",
         "assumptions": [],
@@ -81,18 +86,30 @@ PROPS = {
             J("prod", "c16", needs_repo_bins=["mlar"]),
             J("prod", "c16-symlink", needs_repo_bins=["mlar"]),
         ],
-        "rule": "member-name sets from the path grammar: EVERY name of depth <= 2 (quick) / <= 3 (thorough) over 11 component kinds "
+        "rule": "c16: member-name sets from the path grammar: EVERY name of depth <= 2 (quick) / <= 3 (thorough) over 11 component kinds "
                 "('.', '..', normal, empty, unicode, 255 and 256 bytes, '...', absolute markers) x leading/trailing separator, "
                 "each together with a benign member, plus random sets of 1-4 names of depth <= 4; forms cycle over {linear, glob '*', one listed "
-                "name}; output directory argument relative/absolute, existing/absent; every case is non-trivial; distinct = distinct (set, form)",
+                "name}; output directory argument relative/absolute, existing/absent. c16-symlink: output directory pre-populated with "
+                "out/link -> ../sibling, out/deep/l2 -> ../../sibling/keepdir, out/flink -> ../outside.txt; 30 (quick) / 120 (thorough) random sets of "
+                "1-4 of 19 member names routed through the links (existing and missing directories behind them, the links themselves, a link to a "
+                "file used as a directory, '..' spellings) plus a benign member, random archive order, the three forms; every case is non-trivial; "
+                "distinct = distinct (set, form)",
         "exhaustive": {"quick": True, "thorough": True},
-        "explanation": "theorems: filter-based and canonical-check-based confinement on a model file system, benign members extracted "
-                       "exactly; correspondence: the set of files (path, content) the real `mlar extract` leaves beneath the output "
-                       "directory equals the model's extract_all / extract_linear on the same members, and a recursive snapshot of the "
-                       "sandbox shows nothing else changed",
-        "assumptions": ["the output directory contains no symbolic link before extraction (the property quantifies over member names)",
-                        "Linux limits NAME_MAX=255, PATH_MAX=4096 in the model"],
-        "trusted_base": ["std::path::Path::components modelled in Path.v (56 examples generated from the real rustc output)"],
+        "explanation": "theorems: on ANY model file system (directories, files, symbolic links with relative/absolute targets anywhere) both "
+                       "extraction forms leave every regular file outside the output directory untouched and create none there, every touched "
+                       "file has a physical path beneath it (extract_confined_with_symlinks, touched_*_beneath); filter-based and "
+                       "canonical-check-based derivations; benign members with a clear way extracted exactly; D23 regression witness (the "
+                       "pre-repair code is refuted by computation). correspondence: the regular files (path, content) the real `mlar extract` "
+                       "leaves beneath the output directory equal the model's extract_all / extract_linear on the same members (c16), and with the "
+                       "pre-existing links the WHOLE sandbox snapshot (files with content, directories, symbolic links, exit status) equals the "
+                       "model's (c16-symlink); a recursive snapshot shows no file outside changed",
+        "assumptions": ["no other process modifies the file system during the extraction (no link can appear between a file's creation and "
+                        "its append-mode reopen within one run: no operation of the model creates a link)",
+                        "Linux limits NAME_MAX=255, PATH_MAX=4096, 40 symbolic links per resolution in the model (the kernel counts the links of "
+                        "one open() together, the model gives the parent and the final chain a budget each: only the ELOOP threshold differs)"],
+        "trusted_base": ["std::path::Path::components modelled in Path.v (56 examples generated from the real rustc output)",
+                         "path_resolution(7), mkdir, open(O_CREAT|O_TRUNC / O_APPEND), lstat, std::fs::create_dir_all as modelled in Path.v "
+                         "(validated on the c16-symlink sandbox snapshots and the rust/cf.rs scenarios)"],
     },
     "C18": {
         "jobs": lambda tier: [
